@@ -195,6 +195,89 @@ Proof.
   split; [exact S|]. unfold merge_examples, mfold in R. cbn in R. unfold vresult, vzero in R. rewrite map_repeat' in R. exact R.
 Qed.
 
+
+(* ---- PerDomainMetric: the wrapper's statistic is the concatenation over the domains d of
+   (base statistic if d = domain id else base zero); folding such rows = folding, per domain, the base
+   statistics of the examples of that domain ---- *)
+Notation pd_row := (pd_row alg).
+
+Lemma map2_map_repeat {X Y Z} (g : X -> Y -> Z) (f : nat -> X) (y : Y) l :
+  map2 g (map f l) (repeat y (length l)) = map (fun x => g (f x) y) l.
+Proof. induction l as [|x l IH]; cbn; [reflexivity|]. rewrite IH. reflexivity. Qed.
+
+Lemma per_domain_example_blocks Dn i (s z : list A) :
+  per_domain_example Dn i s z = map (fun d => if Nat.eqb d i then s else z) (seq 0 Dn).
+Proof.
+  unfold per_domain_example, apply_mask, one_hot_bool.
+  rewrite <- (seq_length Dn 0) at 2. apply map2_map_repeat.
+Qed.
+
+Lemma map2_concat {X Y Z} (f : X -> Y -> Z) xs : forall ys,
+  Forall2 (fun x y => length x = length y) xs ys ->
+  map2 f (concat xs) (concat ys) = concat (map2 (map2 f) xs ys).
+Proof.
+  induction xs as [|x xs IH]; intros ys H; inversion H as [|? y ? ys' Hl Hr]; subst; cbn; [reflexivity|].
+  rewrite map2_app by exact Hl. rewrite IH by exact Hr. reflexivity.
+Qed.
+
+Lemma map2_map_map {X Y Z W} (f : Y -> Z -> W) (g : X -> Y) (h : X -> Z) l :
+  map2 f (map g l) (map h l) = map (fun x => f (g x) (h x)) l.
+Proof. induction l as [|x l IH]; cbn; [reflexivity|]. rewrite IH. reflexivity. Qed.
+
+Lemma pd_fold_blocks Dn K rows : Forall (fun r => length (snd r) = K) rows ->
+  forall acc : nat -> list A, (forall d, length (acc d) = K) ->
+  fold_left (vmerge alg) (map (pd_row Dn K) rows) (concat (map acc (seq 0 Dn))) =
+  concat (map (fun d => fold_left (vmerge alg) (map (fun r => if Nat.eqb d (fst r) then snd r else vzero alg K) rows) (acc d))
+              (seq 0 Dn)).
+Proof.
+  induction 1 as [|r rows Hr _ IH]; intros acc Hacc; cbn [map fold_left]; [reflexivity|].
+  unfold pd_row at 2. rewrite per_domain_example_blocks.
+  unfold vmerge at 2. rewrite map2_concat.
+  - rewrite map2_map_map.
+    change (fun x : nat => map2 merge (acc x) (if Nat.eqb x (fst r) then snd r else vzero alg K))
+      with (fun d : nat => vmerge alg (acc d) (if Nat.eqb d (fst r) then snd r else vzero alg K)).
+    rewrite (IH (fun d => vmerge alg (acc d) (if Nat.eqb d (fst r) then snd r else vzero alg K))).
+    + reflexivity.
+    + intros d. unfold vmerge. apply map2_length_eq; [apply Hacc|].
+      destruct (Nat.eqb d (fst r)); [exact Hr|apply repeat_length].
+  - clear IH. induction (seq 0 Dn) as [|d l IHl]; cbn; constructor; [|exact IHl].
+    rewrite Hacc. destruct (Nat.eqb d (fst r)); [symmetry; exact Hr|symmetry; apply repeat_length].
+Qed.
+
+Lemma concat_const_repeat {X} (z : A) K (l : list X) :
+  concat (map (fun _ => repeat z K) l) = repeat z (length l * K).
+Proof. induction l as [|x l IH]; cbn; [reflexivity|]. rewrite IH, repeat_app. reflexivity. Qed.
+
+Lemma vzero_blocks Dn K : vzero alg (Dn * K) = concat (map (fun _ => vzero alg K) (seq 0 Dn)).
+Proof. unfold vzero. rewrite concat_const_repeat, seq_length. reflexivity. Qed.
+
+Lemma strip_domain d (rows : list (nat * list A)) :
+  strip (map snd rows) (map (fun r : nat * list A => Nat.eqb d (fst r)) rows) = domain_rows d rows.
+Proof.
+  unfold domain_rows. induction rows as [|r rows IH]; cbn; [reflexivity|].
+  destruct (Nat.eqb d (fst r)); cbn; rewrite IH; reflexivity.
+Qed.
+
+Lemma Forall2_concat {X Y} (R : X -> Y -> Prop) xs ys :
+  Forall2 (Forall2 R) xs ys -> Forall2 R (concat xs) (concat ys).
+Proof. induction 1 as [|x y xs ys H _ IH]; cbn; [constructor|]. apply Forall2_app; assumption. Qed.
+
+Lemma per_domain_is_per_domain Dn K rows : Forall (fun r => vD K (snd r)) rows ->
+  Forall2 eqv (merge_examples alg (Dn * K) (map (pd_row Dn K) rows))
+              (concat (map (fun d => merge_examples alg K (domain_rows d rows)) (seq 0 Dn))).
+Proof.
+  intros H. unfold merge_examples, mfold. rewrite vzero_blocks.
+  rewrite (pd_fold_blocks Dn K rows); [|eapply Forall_impl; [|exact H]; intros r [L _]; exact L|intros; apply repeat_length].
+  apply Forall2_concat. induction (seq 0 Dn) as [|d l IHl]; cbn [map]; constructor; [|exact IHl].
+  assert (E : map (fun r : nat * list A => if Nat.eqb d (fst r) then snd r else vzero alg K) rows =
+              mask_with (vzero alg K) (map (fun r => Nat.eqb d (fst r)) rows) (map snd rows)).
+  { unfold mask_with. clear. induction rows as [|r rows IH]; cbn; [reflexivity|]. rewrite IH. reflexivity. }
+  rewrite E. rewrite <- strip_domain.
+  apply (mfold_masked (VM K)). rewrite strip_domain. unfold domain_rows.
+  apply Forall_map. apply Forall_forall. intros r Hr. apply filter_In in Hr. destruct Hr as [Hin _].
+  rewrite Forall_forall in H. apply H. exact Hin.
+Qed.
+
 (* a batch without a mask key counts every row *)
 Lemma mask_of_None (rows : list (list A)) : strip rows (mask_of (None, rows)) = rows.
 Proof. unfold mask_of. cbn. apply strip_all_true. Qed.
@@ -550,3 +633,17 @@ Lemma builtin_zeros :
   zero_SequenceLength = mean_metric_zero /\
   zero_SequenceCount = sum_metric_zero /\ zero_ConfusionMatrix_entry = sum_metric_zero.
 Proof. repeat split; reflexivity. Qed.
+
+(* PerDomainMetric: evaluating the wrapper = evaluating the base metric separately on the examples of each domain *)
+Lemma per_domain_definition :
+  (forall Dn K rows, Forall (fun r => vecD (D := Dmean) K (snd r)) rows ->
+     Forall2 stat_eq (merge_examples mean_alg (Dn * K) (map (pd_row mean_alg Dn K) rows))
+                     (concat (map (fun d => merge_examples mean_alg K (domain_rows d rows)) (seq 0 Dn)))) /\
+  (forall Dn K rows, Forall (fun r => vecD (D := NanQ.finite) K (snd r)) rows ->
+     Forall2 NanQ.eq (merge_examples sum_alg (Dn * K) (map (pd_row sum_alg Dn K) rows))
+                     (concat (map (fun d => merge_examples sum_alg K (domain_rows d rows)) (seq 0 Dn)))).
+Proof.
+  split.
+  - exact (per_domain_is_per_domain mean_alg stat_eq Dmean mean_monoid).
+  - exact (per_domain_is_per_domain sum_alg NanQ.eq NanQ.finite sum_monoid).
+Qed.
